@@ -659,8 +659,13 @@ def run_one(cfg, decisions=None, keep_events=False):
             direct_model.call_kernel(kernel, {"scale": 3.0, "background": 7.0}, cutoff=0.0)
             got_iq = direct_model.call_kernel(kernel, dict(pars), cutoff=cutoff)
             denom = np.abs(want_iq) + abs(bkg) + 1e-300
-            if not np.all(agree(got_iq, want_iq, atol * denom)):
-                i = int(np.argmax(~agree(got_iq, want_iq, atol * denom)))
+            # (sums of subnormal float32 terms carry no relative precision: the same absolute
+            # floor as for the running totals, carried through the normalisation)
+            norm = float(svs if svs != 0 else sw) if sw != 0 else 1.0
+            afloor = floor * abs(scale_) / max(norm, 1e-300) if cfg["dtype"] != "double" else 0.0
+            ffloor = floor / max(float(sw), 1e-300) if (cfg["dtype"] != "double" and sw != 0) else 0.0
+            if not np.all(agree(got_iq, want_iq, atol * denom + afloor)):
+                i = int(np.argmax(~agree(got_iq, want_iq, atol * denom + afloor)))
                 cause = "truncated_to_le_1_point" if truncated else "value"
                 fail("A2", "call_kernel returns %r at q[%d]; scale*sum(wF^2)/sum(wV)+background over the qualifying "
                      "mesh points is %r (dispersed %r, lengths %r, truncated %r, mesh %d points, %d qualify)"
@@ -678,7 +683,7 @@ def run_one(cfg, decisions=None, keep_events=False):
                     f1 = np.array(tot[1:base:2], np.longdouble)
                     m1 = np.array(mags[-1][1:base:2] if contrib is not None else f1, np.longdouble)
                     got1 = np.array(F1, "d")
-                    if not np.all(agree(got1, np.array(f1 / sw, "d"), atol * np.array(m1 / sw, "d") + 1e-300)):
+                    if not np.all(agree(got1, np.array(f1 / sw, "d"), atol * np.array(m1 / sw, "d") + 1e-300 + ffloor)):
                         fail("A2", "call_Fq <F> differs from sum(wF)/sum(w)", cause="value")
                 if svs != 0:
                     checks.append(("V_shell", np.array([Vs], "d"), np.array([svs / sw], "d")))
@@ -686,7 +691,7 @@ def run_one(cfg, decisions=None, keep_events=False):
                 if mode:
                     checks.append(("R_eff", np.array([Reff], "d"), np.array([sr / sw], "d")))
                 for nm, got, want in checks:
-                    if not np.all(agree(got, want, atol * (np.abs(want) + 1e-300))):
+                    if not np.all(agree(got, want, atol * (np.abs(want) + 1e-300) + (ffloor if nm == "F2" else 0.0))):
                         fail("A2", "call_Fq %s is %r, reference %r" % (nm, got[:3].tolist(), want[:3].tolist()),
                              cause="truncated_to_le_1_point" if truncated else "value")
                         break
